@@ -31,7 +31,7 @@ RULE = ("layer (i): (operator, table, cut vector, divisions mode) enumerated exh
 ASSUMPTIONS = ["pandas semantics on the concatenated input", "float results compared with rtol 1e-9"]
 CONFIG = {
     "quick": {"budget_s": 55, "nmax": 5, "n2": (4, 4), "programs": 700, "case_timeout_s": 120},
-    "thorough": {"budget_s": 660, "nmax": 7, "n2": (5, 4), "programs": 15000, "case_timeout_s": 600},
+    "thorough": {"budget_s": 660, "nmax": 7, "n2": (5, 4), "programs": 5000, "case_timeout_s": 600},
 }
 
 
